@@ -80,7 +80,7 @@ def plan(cases, tier, rnd):
     if tier == "thorough":
         chosen = cases
         for c in chosen:
-            c["armor"] = {"n": 0, "api_every": 10}      # every message: its whole frame
+            c["armor"] = {"n": 0, "api_every": 20}      # every message: its whole frame
         for c in targets:
             c["armor"] = {"all": True, "api_every": 100}
             c["bin"] = {"all": True, "probe_mac": True} if c["R"] else "none"
